@@ -50,7 +50,19 @@ CHECKS["C19"] = dict(
     technique="deterministic simulation: seeded schedule search over real threads parked at trace-function yield points",
 )
 
-PENDING = {p: "check under construction in this session; will be claimed (see DESIGN.md section 0)" for p in ("C04","C05","C06","C16","C20")}
+CHECKS["C06"] = dict(
+    category="exploration",
+    text="For seeded scenarios (worlds rich in overlapping unions, intersections, dependent types, equal sort keys), the corpus "
+         "outcome vector is compared across configurations drawn from: a recorded permutation at every visit of every hooked "
+         "set-iteration site, permutations of the registration order of distinct signatures, added methods that are inapplicable by "
+         "construction, and fresh interpreters under other hash seeds / allocation patterns (seam-completeness audit).",
+    design_ref="DESIGN.md 4/C06",
+    note="Order sites are those of the OVLD_VERIF seam (sort_types.avail, TypeMap.__missing__ group/handlers, MultiTypeMap.mro "
+         "candidates); unhooked sites are covered only by the foreign-interpreter audit. Ambiguity errors compared by kind. Sampling.",
+    technique="deterministic simulation: seeded search over iteration-order / registration-order / environment configurations with replayable permutation scripts",
+)
+
+PENDING = {p: "check under construction in this session; will be claimed (see DESIGN.md section 0)" for p in ("C04","C05","C16","C20")}
 
 
 def main():
